@@ -65,6 +65,9 @@ THEOREMS = [NS + n for n in [
     "embedded_copy_keeps_parses_independent",
     "embedded_constant_is_shared_witness",
     "no_shared_expression_nodes_embedded",
+    "build_dispatch_policy_ok",
+    "dispatch_order_independent",
+    "inherited_dispatch_entry_witness",
     "tsort_inner_order_independent",
     "absorb_order_independent",
     "absorbed_superset_order_independent",
@@ -592,6 +595,112 @@ def sort_calls():
     return out
 
 
+def build_dispatch_shape(chk=None):
+    """generator._build_dispatch(cls): statement heads, plus which names it reads — the table stored under a class key must be
+    computed from THAT class (cls.TRANSFORMS, dir(cls), getattr(cls, …)), never taken from another class's cache entry"""
+    path = os.path.join(REPO, "sqlglot", "generator.py")
+    t = ast.parse(open(path, encoding="utf-8").read())
+    fn = next((n for n in t.body if isinstance(n, ast.FunctionDef) and n.name == "_build_dispatch"), None)
+    if fn is None:
+        if chk is not None:
+            chk.broken.append({"kind": "translator", "what": "C15 translator: structure changed: generator._build_dispatch not found"})
+        return ["<missing>"]
+    out = []
+
+    def walk(stmts, d):
+        for st in stmts:
+            if isinstance(st, ast.Expr) and isinstance(st.value, ast.Constant) and isinstance(st.value.value, str):
+                continue
+            if isinstance(st, ast.If):
+                out.append(f"{d}:if {' '.join(ast.unparse(st.test).split())[:100]}")
+                walk(st.body, d + 1)
+                if st.orelse:
+                    out.append(f"{d}:else")
+                    walk(st.orelse, d + 1)
+            elif isinstance(st, ast.For):
+                out.append(f"{d}:for {ast.unparse(st.target)} in {ast.unparse(st.iter)}")
+                walk(st.body, d + 1)
+            else:
+                out.append(f"{d}:{' '.join(ast.unparse(st).split())[:110]}")
+    walk(fn.body, 0)
+    names = {n.id for n in ast.walk(fn) if isinstance(n, ast.Name)} | {n.attr for n in ast.walk(fn) if isinstance(n, ast.Attribute)}
+    out.append("reads _DISPATCH_CACHE: " + ("yes" if "_DISPATCH_CACHE" in names else "no"))
+    out.append("reads another class (__mro__/__bases__/mro/super): " + ("yes" if names & {"__mro__", "__bases__", "mro", "super", "__base__"} else "no"))
+    return out
+
+
+def internal_subclasses():
+    """Generator / Parser subclasses of the library that are NOT the generator_class / parser_class of a registered dialect
+    (Athena's internal Hive / Trino engines): (kind, module, class, parent dialect, host dialect, overridden methods)"""
+    import sqlglot.dialects as dmod
+    from sqlglot.dialects.dialect import Dialect
+    from sqlglot.generator import Generator
+    from sqlglot.parser import Parser
+    reg = {}
+    for d in sorted(dmod.DIALECT_MODULE_NAMES):
+        D = type(Dialect.get_or_raise(d))
+        reg[D.generator_class] = d
+        reg[D.parser_class] = d
+
+    def subs(c):
+        out = []
+        for x in c.__subclasses__():
+            out.append(x)
+            out += subs(x)
+        return out
+
+    res = []
+    for kind, base in (("generator", Generator), ("parser", Parser)):
+        for c in subs(base):
+            if c in reg or not c.__module__.startswith("sqlglot"):
+                continue
+            parent = next((reg[b] for b in c.__mro__[1:] if b in reg), None)
+            host = c.__module__.rsplit(".", 1)[-1]
+            ov = sorted(n for n in vars(c) if n.endswith("_sql") or n.startswith("_parse_"))
+            res.append((kind, c.__module__, c.__qualname__, parent or "", host, ov))
+    return sorted(res)
+
+
+# a statement per method an internal sub-generator / sub-parser may override (extended when a new override appears)
+OVERRIDE_SQL = {
+    "alter_sql": ["ALTER TABLE foo ADD COLUMN id INT", "ALTER TABLE foo ADD COLUMNS (a INT, b STRING)", "ALTER TABLE foo DROP COLUMN a"],
+    "create_sql": ["CREATE TABLE foo (a INT)", "CREATE EXTERNAL TABLE foo (a INT) LOCATION 's3://b/'"],
+    "select_sql": ["SELECT a FROM foo"],
+    "drop_sql": ["DROP TABLE foo"],
+    "_parse_statement": ["SELECT 1"],
+}
+
+
+def override_coverage(chk):
+    """run the override statements through the host dialect with a call tracer on each overridden method"""
+    import importlib
+    import sqlglot
+    cov = {}
+    for kind, mod, cls, parent, host, ov in internal_subclasses():
+        C = getattr(importlib.import_module(mod), cls.split(".")[-1], None)
+        for name in ov:
+            key = f"{cls}.{name}"
+            cov[key] = 0
+            orig = getattr(C, name)
+
+            def wrapped(self, *a, __o=orig, __k=key, **k):
+                cov[__k] += 1
+                return __o(self, *a, **k)
+
+            setattr(C, name, wrapped)
+            try:
+                for q in OVERRIDE_SQL.get(name, []):
+                    try:
+                        sqlglot.transpile(q, read=host, write=host)
+                    except Exception:  # noqa
+                        pass
+            finally:
+                setattr(C, name, orig)
+    chk.cov["internal_subclasses"] = [list(x[:5]) + [x[5]] for x in internal_subclasses()]
+    chk.cov["internal_override_coverage"] = {"calls": cov, "unreached": sorted(k for k, v in cov.items() if not v)}
+    return cov
+
+
 def translate(chk) -> str:
     r = extract(chk)
     chk.cov["state_fields"] = {k: len(v) for k, v in r.items()}
@@ -629,6 +738,7 @@ def translate(chk) -> str:
     L.append("def dialectInit : List (String × String) := " + lean_list("(" + lean_str(a) + ", " + lean_str(b) + ")" for a, b in dinit))
     L.append("def dialectWritten : List String := " + lean_list(lean_str(a) for a in dwritten))
     L.append("def dispatchCacheFill : List String := " + lean_list(lean_str(a) for a in dispatch_fill_shape(chk)))
+    L.append("def buildDispatchShape : List String := " + lean_list(lean_str(a) for a in build_dispatch_shape(chk)))
     mt = mutated_class_tables()
     chk.cov["mutated_class_tables"] = len(mt)
     L.append("/-- (file, where, target, how): UPPER_CASE tables mutated after their creation -/")
@@ -1197,6 +1307,9 @@ PAIR_CORPUS = [
     "SELECT x -> '$.k', x ->> 'k', LEVENSHTEIN(a, b), IF(a, 1, 2), TRY_CAST(a AS INT), a % 2, LOG(2, a) FROM t",
     "SELECT INTERVAL '1' YEAR_MONTH, INTERVAL 5 DAY_SECOND, INTERVAL '1' day, a + INTERVAL 2 WEEK, INTERVAL '3' HOUR_MINUTE AS x FROM t",
     "SELECT PRIOR x, a FROM t START WITH a = 1 CONNECT BY PRIOR a = b",
+    "ALTER TABLE foo ADD COLUMN id INT",
+    "ALTER TABLE foo ADD COLUMNS (a INT, b STRING)",
+    "CREATE EXTERNAL TABLE foo (a INT) LOCATION 's3://b/'",
     "SELECT CAST(a AS VARCHAR) + CAST(b AS DATE), COALESCE(CAST(a AS VARCHAR), CAST(b AS TIMESTAMP)), CASE WHEN x THEN CAST(a AS TEXT) ELSE CAST(b AS DATE) END, CAST(a AS BIGINT) + CAST(b AS DECIMAL) FROM t",
 ]
 
@@ -1226,6 +1339,10 @@ def related_dialect_pairs(transitive=False):
         for b in names:
             if a != b and any(ca in cb.__mro__[1:] for ca, cb in zip(cls_of[a], cls_of[b])):
                 pairs.add((a, b))
+    # internal engines (a Generator / Parser subclass that no dialect registers): their parent's dialect vs the host dialect
+    for kind, mod, cls, parent, host, ov in internal_subclasses():
+        if parent and host in names and parent in names and parent != host:
+            pairs.add((parent, host))
     return sorted(pairs)
 
 
@@ -1819,6 +1936,7 @@ def search(chk, hints, budget_s):
                              {"op": c[1], "why": "hash-seed"})
     phase["sweep+tie"] = round(time.time() - t0, 1)
     # --- related dialect pairs: B after A vs B alone (class tables copied / shared between dialect classes)
+    override_coverage(chk)
     pair_found = pair_sweep(chk)
     for first, second, q, alone, after in pair_found[:3]:
         chk.report_violation(f"history:pair:{second}|after:{first}:{abstract_sql(q)}",
